@@ -303,9 +303,15 @@ def run_queue(ctx, replay, pid, mine, dims, opts):
         for k, b in enumerate(behs):       # harness-only dimension: every fourth message waits for a restart
             if k % 4 == 3:
                 b["cfg"]["restartFirst"] = True
+            # harness-only dimension: how the scripted failures are built (421 instead of 451; nested annotated errors)
+            b["cfg"]["errshape"] = ["", "421", "nested"][k % 3]
             # harness-only dimension: the recipients differ only by the letter case of the local part
             if k % 5 == 2 and len(set(b["cfg"]["list"])) >= 2:
                 b["cfg"]["caseVar"] = True
+            # harness-only dimension: SMTPUTF8 message whose recipients have non-ASCII local parts
+            elif k % 5 == 4:
+                b["cfg"]["utf8"] = True
+                b["cfg"]["uniLocal"] = True
     if opts.get("post") and not replay:
         opts["post"](ctx, behs)
     ctx.log("%d behaviours to replay" % len(behs))
@@ -362,6 +368,11 @@ def run_queue(ctx, replay, pid, mine, dims, opts):
             nb = json.loads(json.dumps(b))
             nb["id"] = 1000000 + k + 1
             nb["cfg"]["utf8"] = bool(nb["cfg"].get("utf8", False)) or (k % 4 == 3)
+            nb["cfg"]["errshape"] = "421" if k % 3 == 1 else ""
+            nb["cfg"]["uniLocal"] = (k % 8 == 3)
+            # a dropped connection at the body stage happens in the middle of the transfer (8 MiB message)
+            nb["cfg"]["midData"] = (k % 2 == 0) and any(h.get("a") == "TBody" and h.get("res") == "unspec" or
+                                                       "unspec" in (h.get("st") or {}).values() for h in nb["hist"])      # (only effective together with utf8)
             nb["cfg"]["idn"] = k % 2 == 1      # internationalized recipients (U-label domain) on every second run
             # the real remote-MX target (a PartialDelivery over SMTP) for per-recipient plans whose MAIL always succeeds
             if nb["cfg"]["partial"] and all(h.get("res", "ok") == "ok" for h in nb["hist"] if h["a"] == "TStart") \
